@@ -96,6 +96,8 @@ func runC02(c *Ctx, r *Report, tier string) {
 			vals = append(vals, trunc(t, 50))
 			switch {
 			case t == "*(P5)", t == "call:(*parseState).pop(P1)", strings.HasPrefix(t, "call:unquoteIfPossible(cell:string)#0"):
+			case t == "phi{*(P5) | call:(*parseState).pop(P1)}", t == "phi{call:(*parseState).pop(P1) | *(P5)}":
+				// the two sources already merged (the cell is the by-value parameter of a helper)
 			case t == "phi{call:unquoteIfPossible(cell:string)#0 | cell:string}":
 				// a helper that returns the argument either unquoted or unchanged (unquote:"false")
 			case t == `phi{"" | call:(*parseState).pop(P1)}`, t == `phi{call:(*parseState).pop(P1) | ""}`:
